@@ -8,7 +8,7 @@ use serde_json::{json, Value};
 pub static DEF: PropDef = PropDef {
     id: "C18",
     title: "SliceReader and VecWriter behave as a plain cursor and a plain byte vector",
-    rule: "(reader) slices of 0..64 octets and sequences of 0..40 operations on a pool of readers (the root and every sub-reader created so far): fixed-width reads of 1/2/4/8 octets, skip(n), subreader(n) - \
+    rule: "(reader) slices of 0..64 octets and sequences of 0..40 operations on a pool of readers (the root, every sub-reader created so far and copies of them): fixed-width reads of 1/2/4/8 octets, skip(n), subreader(n) - \
 arguments chosen <= remaining by construction with extra mass on 0 and on exactly `remaining` - bytes(n) with n from 0 to remaining + 3, len/is_empty after every step. Reference: a (start, end) window over the \
 same Vec. Every return value, len() and is_empty() must agree; bytes(n > remaining) must return None without panicking (the sequence ends there: the state after a refused request is not asserted). \
 (writer) sequences of the five append operations and write_bytes_at with in-range, touching-the-end, one-past-the-end and huge offsets. Reference: a Vec<u8>. The buffer must agree after every step, an overwrite \
@@ -50,7 +50,7 @@ fn check_reader(t: &mut Tape, cx: &mut Cx) -> Res {
         let i = t.below(pool.len());
         let (start, end) = (pool[i].1, pool[i].2);
         let rem = end - start;
-        let op = t.below(8);
+        let op = t.below(9);
         let arg_le = |t: &mut Tape, rem: usize, boundary: &mut bool| -> usize {
             match t.below(4) {
                 0 => {
@@ -111,6 +111,13 @@ fn check_reader(t: &mut Tape, cx: &mut Cx) -> Res {
                 };
                 pool[i].1 += k;
                 pool.push((sub, start, start + k));
+                done += 1;
+            }
+            8 => {
+                // SliceReader is Copy: a copy is an independent cursor over the same remaining octets
+                trace.push(format!("r{} = copy of r{}", pool.len(), i));
+                let c = pool[i].0;
+                pool.push((c, start, end));
                 done += 1;
             }
             _ => {
